@@ -346,11 +346,15 @@ thread_local! {
 /// itself are printed
 thread_local! {
     pub static PANIC_MSG: RefCell<String> = RefCell::new(String::new());
+    static IN_RUN: std::cell::Cell<bool> = std::cell::Cell::new(false);
 }
 pub fn silence_panics() {
     std::panic::set_hook(Box::new(|info| {
         if !IN_CALL.with(|c| c.get()) {
             PANIC_MSG.with(|m| *m.borrow_mut() = format!("{info}"));
+            if !IN_RUN.with(|c| c.get()) {
+                eprintln!("harness panic: {info}");
+            }
         }
     }));
 }
@@ -359,7 +363,9 @@ pub fn silence_panics() {
 /// that is data about the code under test, recorded as an anomaly of the run, not a failure of the tool.
 pub fn run_guarded(out: &mut Out, f: impl FnOnce(&mut Out)) {
     out.in_run = false;
+    IN_RUN.with(|c| c.set(true));
     let r = std::panic::catch_unwind(std::panic::AssertUnwindSafe(|| f(&mut *out)));
+    IN_RUN.with(|c| c.set(false));
     if r.is_err() {
         let msg = PANIC_MSG.with(|m| m.borrow().clone());
         IN_CALL.with(|c| c.set(false));
